@@ -81,6 +81,7 @@ int main(int argc, char **argv)
 			if (selfs) { memcpy(sub, iss, il); sbl = il; ksub = kiss; }
 			if (rc == 1) rc = build_exts(ex, &el, sizeof ex, &kv);
 			time_t nb = tv(&kv, "nb", "nbs"), na = tv(&kv, "na", "nas");
+			if (kv_int(&kv, "nonext", 0)) na = (time_t)-1;          // a CRL without nextUpdate (the field is OPTIONAL; -1 = absent, when issuing and when parsing)
 			uint8_t rev[4096]; size_t rl = 0;
 			if (rc == 1 && !strcmp(kind, "crl")) {
 				char rb[2048]; snprintf(rb, sizeof rb, "%s", kv_str(&kv, "revoked", "")); char *sp = NULL; uint8_t *rp = rev;
@@ -101,7 +102,7 @@ int main(int argc, char **argv)
 			vt_time("nb", nb); vt_time("na", na); vt_bytes("exts", ex, el); vt_bytes("pub", pk, 64); vt_bytes("revoked", rev, rl); vt_hex("der", out, rc == 1 ? ol : 0); vt_end();
 			if (rc == 1) {
 				// parse back
-				int ver = -9, alg1 = -9, alg2 = -9; const uint8_t *ps = NULL, *pi = NULL, *psub = NULL, *pe = NULL, *sig = NULL, *prev = NULL; size_t psl = 0, pil = 0, psubl = 0, pel = 0, sigl = 0, prevl = 0; time_t t1 = 0, t2 = 0; SM2_KEY pub; memset(&pub, 0, sizeof pub); int prc;
+				int ver = -9, alg1 = -9, alg2 = -9; const uint8_t *ps = NULL, *pi = NULL, *psub = NULL, *pe = NULL, *sig = NULL, *prev = NULL; size_t psl = 0, pil = 0, psubl = 0, pel = 0, sigl = 0, prevl = 0; time_t t1 = 12345, t2 = 12345 /* a field the parser does not set stays visible */; SM2_KEY pub; memset(&pub, 0, sizeof pub); int prc;
 				if (!strcmp(kind, "cert")) prc = x509_cert_get_details(out, ol, &ver, &ps, &psl, &alg1, &pi, &pil, &t1, &t2, &psub, &psubl, &pub, NULL, NULL, NULL, NULL, &pe, &pel, &alg2, &sig, &sigl);
 				else if (!strcmp(kind, "req")) { const uint8_t *at; size_t atl; prc = x509_req_get_details(out, ol, &ver, &psub, &psubl, &pub, &at, &atl, &alg2, &sig, &sigl); }
 				else prc = x509_crl_get_details(out, ol, &ver, &alg1, &pi, &pil, &t1, &t2, &prev, &prevl, &pe, &pel, &alg2, &sig, &sigl);
